@@ -1,5 +1,6 @@
 import Driver.Tf
 import Driver.Op
+import Driver.Body
 /-!
   Line-protocol driver.  One request per line:
 
@@ -21,6 +22,7 @@ def engineModel (eng : String) (args : List String) : Option String :=
   | "tf" => Tf.model args
   | "tfchain" => TfChain.model args
   | "op" => Op.model args
+  | "body" => Body.model args
   | _ => none
 
 def engineJudge (eng : String) (args obs : List String) : Bool :=
@@ -28,6 +30,7 @@ def engineJudge (eng : String) (args obs : List String) : Bool :=
   | "tf" => Tf.judge args obs
   | "tfchain" => TfChain.judge args obs
   | "op" => Op.judge args obs
+  | "body" => Body.judge args obs
   | _ => true
 
 def handle (line : String) : String :=
